@@ -34,7 +34,7 @@ def run_drivers(prop, tier, seed, workdir, only=None):
     from drivers import REGISTRY
     from concurrent.futures import ThreadPoolExecutor
     names = [n for n in REGISTRY.get(prop, []) if not only or only == n]
-    SHARDS = dict(docops=4, docprops=4, store_small_scope=3, special=2, comments=2)       # slow drivers run as several processes over disjoint case sets
+    SHARDS = dict(docops=6, docprops=4, store_small_scope=3, special=2, comments=2)       # slow drivers run as several processes over disjoint case sets
     jobs = [(n, i, SHARDS.get(n, 1)) for n in names for i in range(SHARDS.get(n, 1))]
     def one(job):
         name, shard, nshards = job
